@@ -50,7 +50,7 @@ Walk(rec, st, pos) ==
 Judge(rec) ==
     IF Len(rec.obs) # Len(rec.h) THEN [ok |-> FALSE, pos |-> 0, field |-> "length", exp |-> NoObs]
     ELSE IF ~NamesWellFormed(rec.names, rec.parts) THEN [ok |-> FALSE, pos |-> 0, field |-> "illformed", exp |-> NoObs]
-    ELSE Walk(rec, InitState(rec.names, rec.parts, rec.nb, rec.path), 1)
+    ELSE Walk(rec, InitState(rec.names, rec.parts, rec.nb, rec.path, rec.skip), 1)
 
 Verdict ==
     LET v == Judge(Data[idx])
